@@ -208,6 +208,12 @@ def run(spec, ctx):
             errors = []
 
             def worker(wid, rr):
+                try:
+                    _work(wid, rr)
+                except Exception as e:  # noqa: BLE001
+                    errors.append({"thread": wid, "raised": "%s: %s" % (type(e).__name__, e)})
+
+            def _work(wid, rr):
                 for rel, text, base_text, want in rr.sample(cases, len(cases)):
                     what = rr.choice(["str", "eq", "to", "str"])
                     if what == "str":
